@@ -272,6 +272,32 @@ fn known_f14(r: &mut PropResult) {
     }
 }
 
+/// F19: field positions that do not fit the header's position byte. (a) a record of 130 chunk-0 fields whose 129th
+/// (position 128) was made optional: `FieldPosition::to_byte` negates 128 as i8; (b) a record that writes 257 fields
+/// into one chunk while buffering: `record_field_index` increments a u8 past 255. Both unwind where overflow checks
+/// are on (and write a wrong position where they are off). Generated declarations stay below 100 fields.
+fn known_f19(r: &mut PropResult) {
+    let wide = |n: usize, steps: Vec<Step>, opt_at: Option<usize>| {
+        let fields: Vec<Field> = (0..n).map(|i| Field::new(&format!("f{i}"), if Some(i) == opt_at { Ty::Option(Arc::new(Ty::U8)) } else { Ty::U8 })).collect();
+        let val = Val::Rec((0..n).map(|i| if Some(i) == opt_at { Val::some(Val::Int(1)) } else { Val::Int(i as i128 % 200) }).collect());
+        (Ty::Adt(struct_decl(&format!("DynWide{n}"), &Record { fields, steps })), val)
+    };
+    let (ta, va) = wide(130, vec![Step::MadeOptional { name: "f128".into() }], Some(128));
+    let a = guarded(|| vcat::encode(&ta, &va).0.map(|b| b.len()));
+    let mut fb: Vec<Field> = (0..257).map(|i| Field::new(&format!("f{i}"), Ty::U8)).collect();
+    fb.push(Field::new("late", Ty::U8));
+    let tb = Ty::Adt(struct_decl("DynWide257", &Record { fields: fb, steps: vec![Step::Added { name: "late".into(), default: Val::Int(0) }] }));
+    let vb = Val::Rec((0..258).map(|i| Val::Int(i as i128 % 200)).collect());
+    let b = guarded(|| vcat::encode(&tb, &vb).0.map(|x| x.len()));
+    if let (Err(pa), Err(pb)) = (&a, &b) {
+        r.lines.push(format!("KNOWN-FINDING: property=C17 F19 encoding a record whose 129th chunk-0 field was made optional panics ({}), and so does a record that writes 257 fields into one chunk of an evolved record ({}): field positions beyond what the header's position byte can hold are not reported through the error type", pa.split('@').next().unwrap_or(pa).trim(), pb.split('@').next().unwrap_or(pb).trim()));
+        *r.acc.known.entry("F19".into()).or_insert(0) += 1;
+    } else if a.is_err() || b.is_err() {
+        r.lines.push(format!("KNOWN-FINDING: property=C17 F19 field positions beyond the position byte: 129th field made optional -> {a:?}; 257 fields in one chunk -> {b:?}"));
+        *r.acc.known.entry("F19".into()).or_insert(0) += 1;
+    }
+}
+
 fn case_strategy() -> proptest::strategy::BoxedStrategy<EncCase> {
     use proptest::prelude::*;
     let cfg = ValCfg { non_bmp: true, transient_ctors: true, max_len: 5, long: false, ..ValCfg::default() };
@@ -328,6 +354,7 @@ pub fn run_c17(cx: &Cx) -> PropResult {
     );
     r.assumptions = vec!["known finding F14 (DateTime<FixedOffset> with unrepresentable local time) is excluded by construction: the value generators only build datetimes whose local time is representable".into()];
     known_f14(&mut r);
+    known_f19(&mut r);
     r
 }
 
